@@ -145,6 +145,7 @@ pub struct Stats {
     pub q_unsat: u64,
     pub q_unknown: u64,
     pub q_memo: u64,
+    pub q_numeric: u64,
     pub solver_s: f64,
     pub nontrivial_paths: u64,
     pub cases: u64,
@@ -526,6 +527,19 @@ impl Engine {
         Sym { node: i, lit: 0.0 }
     }
 
+    /// Structurally non-negative: a sum of squares, absolute values and non-negative constants.
+    fn is_sos(&self, i: u32, depth: usize) -> bool {
+        if depth > 64 { return false; }
+        match &self.nodes[i as usize] {
+            Node::Mul(a, b) => a == b || (self.is_sos(*a, depth + 1) && self.is_sos(*b, depth + 1)),
+            Node::Add(a, b) => self.is_sos(*a, depth + 1) && self.is_sos(*b, depth + 1),
+            Node::Abs(_) | Node::Sqrt(_) => true,
+            Node::Const(r) => r.n >= 0,
+            Node::FConst(b) => f64::from_bits(*b) >= 0.0,
+            _ => false,
+        }
+    }
+
     // ---------- boolean evaluation on constants ----------
     fn eval_b(&self, b: &B) -> Option<bool> {
         Some(match b {
@@ -551,6 +565,84 @@ impl Engine {
                 if any { true } else if unknown { return None } else { false }
             }
         })
+    }
+
+    // ---------- numeric (f64) evaluation, used ONLY to recognise feasible branches cheaply ----------
+    fn eval_f(&self, i: u32, asg: &HashMap<u32, f64>, memo: &mut HashMap<u32, f64>) -> f64 {
+        if let Some(v) = memo.get(&i) { return *v; }
+        let v = match &self.nodes[i as usize] {
+            Node::Var(_) | Node::Fresh(_) => *asg.get(&i).unwrap_or(&0.0),
+            Node::Const(r) => r.to_f64(),
+            Node::FConst(b) => f64::from_bits(*b),
+            Node::Add(a, b) => self.eval_f(*a, asg, memo) + self.eval_f(*b, asg, memo),
+            Node::Sub(a, b) => self.eval_f(*a, asg, memo) - self.eval_f(*b, asg, memo),
+            Node::Mul(a, b) => self.eval_f(*a, asg, memo) * self.eval_f(*b, asg, memo),
+            Node::Div(a, b) => self.eval_f(*a, asg, memo) / self.eval_f(*b, asg, memo),
+            Node::Neg(a) => -self.eval_f(*a, asg, memo),
+            Node::Abs(a) => self.eval_f(*a, asg, memo).abs(),
+            Node::Max(a, b) => self.eval_f(*a, asg, memo).max(self.eval_f(*b, asg, memo)),
+            Node::Min(a, b) => self.eval_f(*a, asg, memo).min(self.eval_f(*b, asg, memo)),
+            Node::Sqrt(a) => self.eval_f(*a, asg, memo).sqrt(),
+            Node::Fun1(..) | Node::Fun2(..) => f64::NAN, // uninterpreted: no numeric shortcut
+        };
+        memo.insert(i, v);
+        v
+    }
+    /// true only when the condition holds with a clear margin under the assignment
+    fn holds_f(&self, b: &B, asg: &HashMap<u32, f64>, memo: &mut HashMap<u32, f64>) -> bool {
+        const M: f64 = 1.0e-7;
+        match b {
+            B::True => true,
+            B::False => false,
+            B::Lt(x, y) => { let (u, v) = (self.eval_f(*x, asg, memo), self.eval_f(*y, asg, memo)); u.is_finite() && v.is_finite() && u + M * (1.0 + u.abs().max(v.abs())) < v }
+            B::Le(x, y) => { let (u, v) = (self.eval_f(*x, asg, memo), self.eval_f(*y, asg, memo)); u.is_finite() && v.is_finite() && u + M * (1.0 + u.abs().max(v.abs())) < v }
+            B::Eq(x, y) => x == y,
+            B::Not(c) => match &**c {
+                B::Lt(x, y) => { let (u, v) = (self.eval_f(*x, asg, memo), self.eval_f(*y, asg, memo)); u.is_finite() && v.is_finite() && v + M * (1.0 + u.abs().max(v.abs())) < u }
+                B::Le(x, y) => { let (u, v) = (self.eval_f(*x, asg, memo), self.eval_f(*y, asg, memo)); u.is_finite() && v.is_finite() && v + M * (1.0 + u.abs().max(v.abs())) < u }
+                B::Eq(x, y) => { let (u, v) = (self.eval_f(*x, asg, memo), self.eval_f(*y, asg, memo)); u.is_finite() && v.is_finite() && (u - v).abs() > M * (1.0 + u.abs().max(v.abs())) }
+                B::Not(d) => self.holds_f(d, asg, memo),
+                B::And(v) => v.iter().any(|x| self.holds_f(&x.clone().not(), asg, memo)),
+                B::Or(v) => v.iter().all(|x| self.holds_f(&x.clone().not(), asg, memo)),
+                B::True => false,
+                B::False => true,
+            },
+            B::And(v) => v.iter().all(|x| self.holds_f(x, asg, memo)),
+            B::Or(v) => v.iter().any(|x| self.holds_f(x, asg, memo)),
+        }
+    }
+    /// Cheap sufficient test for satisfiability of a conjunction: try pseudo-random small rational points.
+    /// A hit means "feasible" (up to float evaluation with margins); a miss means nothing.
+    fn numeric_feasible(&mut self, bs: &[&B]) -> bool { self.numeric_model(bs).is_some() }
+    fn numeric_model(&mut self, bs: &[&B]) -> Option<HashMap<u32, f64>> {
+        let mut roots = Vec::new();
+        for b in bs { b.roots(&mut roots); }
+        let mut seen: BTreeSet<u32> = BTreeSet::new();
+        let mut stack = roots;
+        let mut vars = Vec::new();
+        while let Some(i) = stack.pop() {
+            if !seen.insert(i) { continue; }
+            match &self.nodes[i as usize] {
+                Node::Add(a, b) | Node::Sub(a, b) | Node::Mul(a, b) | Node::Div(a, b) | Node::Max(a, b) | Node::Min(a, b) => { stack.push(*a); stack.push(*b); }
+                Node::Neg(a) | Node::Abs(a) | Node::Sqrt(a) => stack.push(*a),
+                Node::Fun1(..) | Node::Fun2(..) => return None,
+                Node::Var(_) | Node::Fresh(_) => vars.push(i),
+                _ => {}
+            }
+        }
+        let mut st: u64 = 0x9E3779B97F4A7C15 ^ (self.stats.decisions.wrapping_mul(0x2545F4914F6CDD1D)) | 1;
+        for trial in 0..48 {
+            let mut asg = HashMap::new();
+            for &v in &vars {
+                st ^= st << 13; st ^= st >> 7; st ^= st << 17;
+                let k = (st >> 33) % 17;
+                let val = if trial % 3 == 0 { (k as f64 - 8.0) / 2.0 } else if trial % 3 == 1 { (k as f64 - 8.0) * 0.37 + 0.11 } else { ((k as f64) - 8.0).powi(3) / 16.0 + 0.03 };
+                asg.insert(v, val);
+            }
+            let mut memo = HashMap::new();
+            if bs.iter().all(|b| self.holds_f(b, &asg, &mut memo)) { self.stats.q_numeric += 1; return Some(asg); }
+        }
+        None
     }
 
     // ---------- SMT emission ----------
@@ -724,23 +816,28 @@ impl Engine {
         let getv = if want_model && !vars.is_empty() {
             Some(format!("(get-value ({}))", vars.iter().map(|v| format!("v{}", v)).collect::<Vec<_>>().join(" ")))
         } else { None };
-        let (mut verdict, mut model_txt) = match self.solver.as_mut() {
-            Some(s) => s.query(&text, getv.as_deref(), timeout_ms),
-            None => (Verdict::Unknown, None),
-        };
-        if verdict == Verdict::Unknown {
-            // the solver may have been killed on overrun
-            if self.solver.as_ref().map(|s| s.dead).unwrap_or(true) { self.solver = None; }
-        }
-        if verdict == Verdict::Unknown && timeout_ms >= self.cfg.prove_timeout_ms && !self.cfg.z3_alt.is_empty() {
-            if self.solver_alt.is_none() { self.solver_alt = Solver::spawn(&self.cfg.z3_alt); }
-            if let Some(s) = self.solver_alt.as_mut() {
-                let (v2, m2) = s.query(&text, getv.as_deref(), timeout_ms);
-                if s.dead { self.solver_alt = None; }
-                if v2 != Verdict::Unknown { verdict = v2; model_txt = m2; }
+        // portfolio: the two z3 releases differ by orders of magnitude on individual nonlinear queries
+        // (in both directions), so: short slice on the primary, full cap on the alternate, full cap on the primary
+        let slice = timeout_ms.min(700);
+        let mut verdict = Verdict::Unknown;
+        let mut model_txt = None;
+        for stage in 0..3 {
+            if verdict != Verdict::Unknown { break; }
+            let (use_alt, to) = match stage { 0 => (false, slice), 1 => (true, timeout_ms), _ => (false, timeout_ms) };
+            if stage == 2 && timeout_ms <= slice { break; }
+            if use_alt && self.cfg.z3_alt.is_empty() { continue; }
+            let stage_text = text.replacen(&format!("(set-option :timeout {})", timeout_ms), &format!("(set-option :timeout {})", to), 1);
+            let slot = if use_alt { &mut self.solver_alt } else { &mut self.solver };
+            if slot.is_none() { *slot = Solver::spawn(if use_alt { &self.cfg.z3_alt } else { &self.cfg.z3 }); }
+            if let Some(sv) = slot.as_mut() {
+                let (v, m) = sv.query(&stage_text, getv.as_deref(), to);
+                if sv.dead { *slot = None; }
+                verdict = v;
+                model_txt = m;
             }
         }
         self.stats.solver_s += t0.elapsed().as_secs_f64();
+        if std::env::var("VERIF_DEBUG").is_ok() && t0.elapsed().as_secs_f64() > 0.5 { eprintln!("slow query: {:.1}s {:?} timeout={} asserts={} vars={}", t0.elapsed().as_secs_f64(), verdict, timeout_ms, text.matches("(assert").count(), vars.len()); }
         if verdict == Verdict::Unknown { if let Ok(d) = std::env::var("VERIF_DUMP") { let _ = std::fs::write(format!("{}/unknown-{}-{}.smt2", d, std::process::id(), self.stats.q_unknown), &text); } }
         match verdict {
             Verdict::Sat => self.stats.q_sat += 1,
@@ -980,7 +1077,7 @@ impl Sym {
     #[track_caller]
     pub fn sqrt(self) -> Sym {
         let site = caller();
-        if !self.is_const() {
+        if !self.is_const() && !with(|e| { let i = e.id(self); e.is_sos(i, 0) }) {
             if decide(lt(self, Sym::lit(0.0))) { abort(Stop::Domain { what: "sqrt", site }); }
         }
         with(|e| e.un("sqrt", self))
@@ -1212,8 +1309,17 @@ pub fn decide_at(atom: B, site: Option<String>) -> bool {
                 let pc: Vec<B> = e.pc.clone();
                 let mut v: Vec<&B> = pc.iter().collect();
                 v.push(&atom);
-                let (vt, _) = e.check(&v, false, to, false, None);
-                if vt == Verdict::Unsat { return (false, true); }
+                // numeric shortcut: a branch that holds with margin at some sample point is feasible
+                let tn = e.numeric_feasible(&v);
+                let mut vneg: Vec<&B> = pc.iter().collect();
+                vneg.push(&neg);
+                let fnum = e.numeric_feasible(&vneg);
+                if tn && fnum { return (true, true); }
+                if !tn {
+                    let (vt, _) = e.check(&v, false, to, false, None);
+                    if vt == Verdict::Unsat { return (false, true); }
+                }
+                if fnum { return (true, true); }
                 let (vf, _) = e.check(&v, true, to, false, None);
                 (true, vf != Verdict::Unsat)
             });
@@ -1542,7 +1648,12 @@ pub fn control(label: &str, b: B) {
         let pc: Vec<B> = e.pc.clone();
         let mut v: Vec<&B> = pc.iter().collect();
         v.push(&b);
-        let to = e.cfg.prove_timeout_ms;
+        let to = e.cfg.decide_timeout_ms;
+        // a sample point at which the path condition holds and the control fails (with margin) is witness enough
+        let nb = b.clone().not();
+        let mut vn: Vec<&B> = pc.iter().collect();
+        vn.push(&nb);
+        if e.numeric_feasible(&vn) { e.stats.controls_ok += 1; return; }
         let (vd, _) = e.check(&v, true, to, false, None);
         if vd == Verdict::Sat { e.stats.controls_ok += 1; } else {
             // a path whose own condition is unsatisfiable was entered only because a feasibility
@@ -1562,7 +1673,15 @@ pub fn path_feasible() -> Verdict {
         if e.concrete.is_some() { return Verdict::Sat; }
         let pc: Vec<B> = e.pc.clone();
         let v: Vec<&B> = pc.iter().collect();
-        let to = e.cfg.decide_timeout_ms;
+        if let Some(asg) = e.numeric_model(&v) {
+            if e.samples.len() < e.cfg.keep_samples {
+                let mut txt: Vec<String> = asg.iter().filter_map(|(k, x)| e.var_names.get(k).map(|n| format!("{}={}", n, x))).collect();
+                txt.sort();
+                e.samples.push(format!("path {:?}: {}", e.trace, txt.join(" ")));
+            }
+            return Verdict::Sat;
+        }
+        let to = e.cfg.decide_timeout_ms.min(3000);
         let (vd, m) = e.check(&v, false, to, true, None);
         if vd == Verdict::Sat && e.samples.len() < e.cfg.keep_samples {
             if let Some(m) = m {
